@@ -1,5 +1,5 @@
 ID = 'C16'
-UNITS = {'launch': dict(wrap='wrap.cc', shim=True, new_block=96, cxxflags=['-fno-inline'], cuts=['^_ZNSt6threadC2IRFv']),
+UNITS = {'launch': dict(wrap='wrap.cc', shim=True, new_block=96, cxxflags=['-fno-inline', '-DC16_LAUNCH_ONLY'], cuts=['^_ZNSt6threadC2IRFv']),
          'tools': dict(wrap='wrap.cc', new_block=96, per_harness={'h_workers.c': {'gen_defs': ['VERIF_SEQ']}})}
 BOUNDS = 'T in {2,3} worker threads, range length 0..4, block size 1..2, at most ROUNDS-1 context switches per thread'
 STUBS = ['callback = harness function recording (value, thread) and returning a symbolic truth bit',
